@@ -61,6 +61,18 @@ def _tx_callable(handle, spec):
     k = spec["kind"]
     if k == "append":
         return lambda: handle.append_records(spec["rows"])
+    if k == "append2":
+        # the SAME writer object commits twice in a row (whatever it remembers from its first commit is in play for the second)
+        def two():
+            spec["done"] = [False, False]
+            for i_, rows_ in enumerate(spec["parts"]):
+                try:
+                    handle.append_records(rows_)
+                    spec["done"][i_] = True
+                except Exception as e:      # noqa: BLE001
+                    spec.setdefault("errors", []).append(type(e).__name__)
+            return True
+        return two
     if k == "delsnap":
         return lambda: handle.snapshot_manager.delete_snapshot(spec["snapshot"])
     if k == "expire":
@@ -109,6 +121,8 @@ def run_case(ctx, rep, case, base_dir, model_ok):
                 kind = case["kinds"][ai - 1]
                 if kind == "append":
                     specs[ai] = {"kind": "append", "rows": tablekit.rows(1, start=1000 * ai, tag=f"a{ai}_")}
+                elif kind == "append2":
+                    specs[ai] = {"kind": "append2", "parts": [tablekit.rows(1, start=1000 * ai, tag=f"a{ai}x_"), tablekit.rows(1, start=1000 * ai + 50, tag=f"a{ai}y_")]}
                 elif kind == "delsnap":
                     specs[ai] = {"kind": "delsnap", "snapshot": init_snaps[(ai - 1) % 2]}      # never the current one
                 elif kind == "expire":
@@ -267,6 +281,15 @@ def run_case(ctx, rep, case, base_dir, model_ok):
                         problems.append(f"acknowledged append of actor {ai} is reflected {n}/{len(keys)} times")
                     if not ok and n:
                         problems.append(f"append of actor {ai} raised but is reflected")
+                elif sp["kind"] == "append2":
+                    for i_, rows_ in enumerate(sp["parts"]):
+                        keys = [reader.rowkey(r) for r in rows_]
+                        n = sum(final_rows.count(k) for k in keys)
+                        done_ = sp.get("done", [False, False])[i_]
+                        if done_ and n != len(keys):
+                            problems.append(f"acknowledged append #{i_ + 1} of actor {ai} is reflected {n}/{len(keys)} times")
+                        if not done_ and n:
+                            problems.append(f"append #{i_ + 1} of actor {ai} raised but is reflected")
                 elif sp["kind"] == "delsnap":
                     present = sp["snapshot"] in final_snaps
                     expired = any(acks[b] and (specs[b]["kind"] == "expire" or (b != ai and specs[b]["kind"] == "delsnap" and specs[b]["snapshot"] == sp["snapshot"])) for b in specs)
@@ -306,7 +329,7 @@ def run_case(ctx, rep, case, base_dir, model_ok):
             if any(len(c) > 1 for c in kids.values()):
                 problems.append("snapshot chain is not linear (a snapshot has two children)")
             for pr in problems:
-                sig = "C01:" + ("lost-update" if "not reflected" in pr or "missing" in pr else "anomaly") + ":" + pr.split(" of actor")[0].replace(" ", "-")
+                sig = "C01:" + ("lost-update" if "not reflected" in pr or "missing" in pr or "is reflected 0/" in pr else "anomaly") + ":" + pr.split(" of actor")[0].replace(" ", "-")
                 if "not reflected" in pr and case["clock"] in ("frozen", "coarse") and all(specs[a]["kind"] in ("delsnap", "expire") for a in specs):
                     sig = "C01:metadata-only-commits-equal-millisecond-stale-base"
                 if pr.startswith("lost-lock"):
